@@ -307,6 +307,24 @@ def saveOfAbs (x : List Bytes × List Ref) : Bytes :=
   let n := x.1.length
   header n ++ table (headerSize + tableEntrySize * n) (x.1.map (·.length)) ++ x.1.flatten ++ relocBytes x.2
 
+/-! ## single-field corruption of a compiled-rules file (C17) -/
+
+/-- the file `img` with the `bs.length` bytes at offset `off` overwritten by `bs` -/
+def patch (img : Bytes) (off : Nat) (bs : Bytes) : Bytes := img.take off ++ bs ++ img.drop (off + bs.length)
+
+/-- file offsets of the fields of the header and of the `i`-th buffer-table entry -/
+def offsetFieldAt (i : Nat) : Nat := headerSize + tableEntrySize * i + tblOffsetOff
+def sizeFieldAt (i : Nat) : Nat := headerSize + tableEntrySize * i + tblSizeOff
+
+/-- the loader with every validation of the current source tree (offset cross-check, guarded relocation bounds test,
+    reference-target test with `>=`, trailing partial entry refused) -/
+structure Hardened (cfg : LoaderCfg) : Prop where
+  offs : cfg.checksOffsets = true
+  guarded : cfg.relocGuarded = true
+  refs : cfg.validatesRefs = true
+  strict : cfg.refStrict = true
+  part : cfg.rejectsPartial = true
+
 /-- file offset where the buffer bodies start / end (= where the relocation entries start) -/
 def bodiesStart (a : Arena) : Nat := headerSize + tableEntrySize * a.bufs.length
 def bodiesEnd (a : Arena) : Nat := bodiesStart a + ((bodies a).map (·.length)).sum
